@@ -9,7 +9,7 @@ from hypothesis import strategies as st
 from .. import qrref as R
 from .. import colors, vector
 from ..common import call, Refused, Crash
-from ..runner import Dev, Outcome, Enum, Search
+from ..runner import HarnessError, Dev, Outcome, Enum, Search
 from .c09 import make_symbol, symbols
 
 PROPERTY = 'C10'
@@ -46,6 +46,8 @@ def expected_grid(matrix, border):
 def cover_devs(kind, segs, grid, t):
     try:
         got = vector.grid_from_segments(segs, t)
+    except vector.Unsupported as ex:
+        raise HarnessError('reader limitation (%s): %s' % (kind, ex))
     except vector.FormatError as ex:
         return [Dev('C10/segments-%s' % kind, str(ex))]
     if got != grid:
@@ -191,6 +193,8 @@ def check_case(case):
                 devs.append(Dev('C10/dark-colour-tex', '%r, expected %r' % (d['color'], want)))
             if d['url'] != opts.get('url'):
                 devs.append(Dev('C10/url-tex', '%r' % d['url']))
+    except vector.Unsupported as ex:
+        raise HarnessError('reader limitation (%s): %s' % (kind, ex))
     except vector.FormatError as ex:
         devs.append(Dev('C10/malformed-' + kind, str(ex)))
     nontrivial = scale != 1 or light is not None or border is not None
